@@ -4,7 +4,7 @@
    [sigma : list ident -> list ident] stands for "the order in which CPython iterates the set with
    these elements"; the only thing assumed about it is [perm_oracle] (it is a permutation).  A
    family [otag -> ...] gives every construct of a program its own oracle. *)
-From Coq Require Import ZArith List Bool Permutation Sorted.
+From Coq Require Import ZArith List Bool Permutation Sorted String.
 From RV Require Import Base.Wire Base.Text Lang.Order Proofs.OrderP.
 From RV Require Import Gen.SetSites Lang.OrderSites Proofs.OrderSitesP.
 Import ListNotations.
@@ -40,11 +40,18 @@ Proof. exact promote_loop_two_names. Qed.
 Print Assumptions C10_two_unmet_names_in_a_loop_refuted.
 
 (* ---------------------------------------------------------------- _partial: inside the guard *)
-(* one construct: at most one new name per branch / every new name of a loop body met by _collect_order *)
+(* one construct.  [guard]: every branch of an if / try contributes at most one name that is neither declared by the parent
+   nor recorded by an earlier branch; every new name of a loop body is met by _collect_order *)
 Theorem C10_partial_construct : forall s1 s2 c,
   perm_oracle s1 -> perm_oracle s2 -> guard c = true -> promote s1 c = promote s2 c.
 Proof. exact promote_guarded. Qed.
 Print Assumptions C10_partial_construct.
+
+(* the simple sufficient condition: at most one new name per branch *)
+Theorem C10_guard_one_name_per_branch : forall parent brs,
+  forallb (fun br : list decl => (List.length br <=? 1)%nat) brs = true -> guard (CIf parent brs) = true.
+Proof. exact (fun parent brs => guard_if_small parent brs []). Qed.
+Print Assumptions C10_guard_one_name_per_branch.
 
 (* whole programs of the modelled fragment: if every construct met by the translation is inside the guard
    ([o_ok]), the declaration-and-block skeleton does not depend on any iteration order *)
@@ -60,6 +67,13 @@ Example C10_partial_nonvacuous :
   o_loop (transl (fun _ => sid) guarded_prog) = [NDecl n_c 0; NDecl n_d 3; NWhile [NAssign n_c; NAssign n_d]].
 Proof. exact guarded_prog_ok. Qed.
 Print Assumptions C10_partial_nonvacuous.
+
+Example C10_partial_nonvacuous_two_names :
+  o_ok (transl (fun _ => sid) guarded_prog2) = true /\
+  o_funs (transl (fun _ => srev) guarded_prog2) =
+    [(txt "fn"%string, [NDecl n_a 0; NDecl n_b 1; NIf [[NAssign n_a]; [NAssign n_b; NAssign n_a]]])].
+Proof. exact guarded_prog2_ok. Qed.
+Print Assumptions C10_partial_nonvacuous_two_names.
 
 (* being inside the guard is a property of the program, not of the iteration orders *)
 Theorem C10_guard_is_oracle_independent : forall s1 s2 p,
